@@ -112,30 +112,35 @@ OSphBehaviour(c) ==
 
 (*************************** slabs ********************************************)
 SModels == {"mass conserving", "plate model"}
-SCase == [model : SModels, ref : {"half space model", "plate model"}, dip : {30, 60}, vel : {2, 5, 10}, age : {1, 4}]
-SValid(c) == c.model = "mass conserving" \/ c.ref = "half space model"
+(* short: a nascent slab -- one segment of 200 km, the taper as long as the slab, so that it starts above the coupling depth *)
+SCase == [model : SModels, ref : {"half space model", "plate model"}, dip : {30, 60}, vel : {2, 5, 10}, age : {1, 4}, short : BOOLEAN]
+SValid(c) == (c.model = "mass conserving" \/ c.ref = "half space model") /\ (c.short => c.model = "mass conserving")
 SDoc(c) ==
   LET m == IF c.model = "mass conserving"
            THEN    ("model" :> "mass conserving") @@ ("density" :> 3300) @@ ("thermal conductivity" :> Dec(33, -1)) @@ ("adiabatic heating" :> TRUE)
                 @@ ("spreading velocity" :> Dec(5, -2)) @@ ("subducting velocity" :> Dec(c.vel, -2)) @@ ("reference model name" :> c.ref)
-                @@ ("ridge coordinates" :> << <<P(-c.age * 1000, -3000), P(-c.age * 1000, 3000)>> >>) @@ ("coupling depth" :> 80 * Km)
-                @@ ("taper distance" :> 100 * Km) @@ ("min distance slab top" :> -200 * Km) @@ ("max distance slab top" :> 300 * Km)
+                @@ ("ridge coordinates" :> << <<P(-c.age * 1000, -3000), P(-c.age * 1000, 3000)>> >>) @@ ("coupling depth" :> (IF c.short THEN 100 ELSE 80) * Km)
+                @@ ("taper distance" :> (IF c.short THEN 200 ELSE 100) * Km) @@ ("min distance slab top" :> -200 * Km) @@ ("max distance slab top" :> 300 * Km)
            ELSE    ("model" :> "plate model") @@ ("density" :> 3300) @@ ("plate velocity" :> Dec(c.vel, -2)) @@ ("thermal conductivity" :> Dec(25, -1))
                 @@ ("adiabatic heating" :> TRUE) @@ ("min distance slab top" :> 0) @@ ("max distance slab top" :> 100 * Km)      \* McKenzie: inside the plate
   IN WorldOf(<<Line("subducting plate", "f", <<P(500, -1000), P(500, 2000)>>, P(2000, 500), 0, 1000 * Km,
-                    IF c.model = "mass conserving"
+                    IF c.short THEN <<Segment(200 * Km, <<300 * Km>>, <<-200 * Km>>, <<c.dip>>)>>
+                    ELSE IF c.model = "mass conserving"
                     THEN <<Segment(300 * Km, <<300 * Km>>, <<-200 * Km>>, <<c.dip>>), Segment(400 * Km, <<300 * Km>>, <<-200 * Km>>, <<c.dip, c.dip + 15>>)>>
                     ELSE <<Segment(300 * Km, <<100 * Km>>, <<0>>, <<c.dip>>), Segment(400 * Km, <<100 * Km>>, <<0>>, <<c.dip, c.dip + 15>>)>>,
                     <<m>>, <<>>, <<>>, <<>>)>>)
 (* probes on a lattice in the plane y = 500 km, around and inside the slab *)
 SRows == LET ps == SetToSeq({200 + 50 * i : i \in 0..20} \X {10 * j : j \in 0..60}) IN
          [k \in 1..Len(ps) |-> <<ps[k][1] * Km, 500 * Km, HM - ps[k][2] * Km, ps[k][2] * Km>>]
+(* the nascent slab is probed on a fine lattice (2 km) around it *)
+SRowsShort == LET ps == SetToSeq({440 + 2 * i : i \in 0..150} \X {2 * j : j \in 0..100}) IN
+              [k \in 1..Len(ps) |-> <<ps[k][1] * Km, 500 * Km, HM - ps[k][2] * Km, ps[k][2] * Km>>]
 SBehaviour(c) ==
-  [id |-> <<"envelope-slab", c>>, labels |-> <<"envelope", "slab " \o c.model>>,
+  [id |-> <<"envelope-slab", c>>, labels |-> <<"envelope", "slab " \o c.model, IF c.short THEN "nascent-slab" ELSE "long-slab">>,
    steps |-> << [op |-> "create", h |-> 1, wb |-> SDoc(c)],
                 [op |-> "qtable", h |-> 1, dim |-> 3, props |-> <<PT>>,
                  rowlet |-> << <<"lo", 273>>, <<"hi", Adiabat(V("$3"))>> >>,
-                 checks |-> <<[k |-> "between", at |-> 0, col |-> 4, col2 |-> 5, slack |-> Dec(1, -9)]>>, rows |-> SRows] >>]
+                 checks |-> <<[k |-> "between", at |-> 0, col |-> 4, col2 |-> 5, slack |-> Dec(1, -9)]>>, rows |-> IF c.short THEN SRowsShort ELSE SRows] >>]
 
 VARIABLE case
 Init == case \in ({"ocean"} \X OCase) \cup ({"slab"} \X {c \in SCase : SValid(c)}) \cup ({"ocean-sphere"} \X OSphCase)
